@@ -2,8 +2,9 @@
 (* Trace validation of the in-memory log buffer against LogRing.tla (C20).     *)
 EXTENDS LogRing, IOUtils
 Trace == ndJsonDeserialize(IOEnv.TRACE)
-VARIABLES l, bad, nbad, ntr, derived
-tvars == <<total, nlog, hist, l, bad, nbad, ntr, derived>>
+\* rcap: the capacity the code reports (logging.BufferSize); the property speaks of "its capacity", whatever it is
+VARIABLES l, bad, nbad, ntr, derived, rcap
+tvars == <<total, nlog, hist, l, bad, nbad, ntr, derived, rcap>>
 MaxBad == 40
 \* deviations are kept per class (operation, failed checks, deviation flags): a flood of one class never hides another
 KeepBad(bd, op, fl, dv) == Cardinality({b \in bd : b[3] = op /\ b[4] = fl /\ b[5] = dv}) < 6 /\ Cardinality(bd) < 40 * MaxBad
@@ -30,14 +31,15 @@ Step(e) ==
     [] e.op = "write" -> [total |-> total + e.n, nlog |-> nlog, derived |-> derived,
                           f |-> Flag(e.res = "ok", "panic") \cup Flag(e.first = total + 1 /\ e.last = total + e.n, "harness")]
     [] e.op = "snapshot" -> [total |-> total, nlog |-> nlog, derived |-> derived,
-                             f |-> Flag(e.res = "ok" /\ e.ok, "panic") \cup Flag(e.ids = Snapshot(total), "snapshot")]
+                             f |-> Flag(e.res = "ok" /\ e.ok, "panic") \cup Flag(e.ids = SnapshotC(total, rcap), "snapshot")]
     [] e.op = "concsnapshot" -> [total |-> total, nlog |-> nlog, derived |-> derived, f |-> Flag(ConcOK(e), "concsnapshot")]
     [] OTHER -> [total |-> total, nlog |-> nlog, derived |-> derived, f |-> {"unknown-op"}]
 
-TraceInit == total = 0 /\ nlog = 1 /\ hist = <<>> /\ l = 1 /\ bad = {} /\ nbad = 0 /\ ntr = 0 /\ derived = FALSE
+TraceInit == rcap = Cap /\ total = 0 /\ nlog = 1 /\ hist = <<>> /\ l = 1 /\ bad = {} /\ nbad = 0 /\ ntr = 0 /\ derived = FALSE
 TraceNext ==
   /\ l <= Len(Trace)
   /\ LET e == Trace[l] r == Step(e) IN
+     /\ rcap' = IF e.op = "reset" THEN e.cap ELSE rcap
      /\ total' = r.total /\ nlog' = r.nlog /\ derived' = r.derived /\ hist' = hist
      /\ l' = l + 1 /\ ntr' = IF e.op \in {"reset", "concsnapshot"} THEN ntr + 1 ELSE ntr
      /\ nbad' = IF r.f = {} THEN nbad ELSE nbad + 1
